@@ -168,7 +168,7 @@ theorem paramLoop_ext (t : UInt8) (n fuel : Nat) (st : Slots) (nm : Bytes) (r : 
         intro x hx
         have := List.all_eq_true.mp hform.2 x hx
         simp only [tokByte, Bool.and_eq_true, bne_iff_ne, ne_eq, decide_eq_true_eq] at this
-        simp [plainByte, this.1.1.2, this.1.1.1.1.1, this.1.2, this.2]
+        simp [plainByte, this.1.1.2, this.1.1.1.1.1.2, this.1.2, this.2]
       simp only [renderValue]
       rw [skipU_plain _ _ hv, skipU_plain _ _ (ws_plain _ hw3), skipU_tail _ htl]
     | quoted esc =>
